@@ -78,9 +78,8 @@ type Counter interface{}
 type Record interface{}
 
 var (
-	errNoneEnterpriseStandard = errors.New("the enterprise is not standard sflow data")
-	errDataLengthUnknown      = errors.New("the sflow data length is unknown")
-	errSFVersionNotSupport    = errors.New("the sflow version doesn't support")
+	errDataLengthUnknown   = errors.New("the sflow data length is unknown")
+	errSFVersionNotSupport = errors.New("the sflow version doesn't support")
 )
 
 // NewSFDecoder constructs new sflow decoder
@@ -199,13 +198,14 @@ func (d *SFDecoder) getSampleInfo() (uint32, uint32, error) {
 	sfTypeFormat = sfType & 0xfff   // 12 bytes format
 
 	// supports standard sflow data
-	if sfTypeEnterprise != 0 {
-		d.reader.Seek(int64(sfDataLength), 1)
-		return 0, 0, errNoneEnterpriseStandard
-	}
-
 	if err = read(d.reader, &sfDataLength); err != nil {
 		return 0, 0, errDataLengthUnknown
+	}
+
+	if sfTypeEnterprise != 0 {
+		// not a standard sFlow structure: report the full data format (it matches no
+		// supported type) so that the caller skips the sample by its declared length
+		return sfType, sfDataLength, nil
 	}
 
 	return sfTypeFormat, sfDataLength, nil
